@@ -50,8 +50,11 @@ def pred (opts : List Opt) (cmd : List (List UInt8)) (input : List UInt8)
   if opts.any (fun | .n 0 => true | .l 0 => true | .s 0 => true | .d _ => true | .null => true | .s _ => true | .x => true | _ => false) then true else
   match replaceMode opts, cmd with
   | none, _ =>
-    -- not replace mode: nothing may be substituted; commands start with the command as given
-    argvs.all (fun av => av.take cmd.length == cmd)
+    -- not replace mode (a later -n or -L decides): nothing may be substituted, commands start with
+    -- the command as given, and the run is an ordinary one: in particular empty input without -r
+    -- still runs the command once (only replace mode implies -r)
+    argvs.all (fun av => av.take cmd.length == cmd) &&
+      (if input.all isWs && !opts.any (fun | .r => true | _ => false) then argvs == [cmd] else true)
   | some _, [] => true
   | some r, prog :: initial =>
     let lines := splitLines input
